@@ -18,13 +18,16 @@ PoC == {"ok", "unsorted", "empty", "has_n", "has_far", "has_n_first", "has_far_m
 InC == {"ok", "minus1", "plus1", "none"}
 CircC == {"ok", "badreg", "badoutreg", "read_before_write", "noinputs", "nooutputs", "input_wrong_reg",
           "ands_minus", "ands_plus", "input_after_gate", "surplus_input", "missing_input",
-          "input_party_oob", "input_idx_oob"}
+          "input_party_oob", "input_idx_oob", "input_party_eq_n", "input_idx_eq_len", "dup_input"}
 
 \* what garble_lang's validate rejects
 LibInvalid(c) == c \in {"badreg", "badoutreg", "read_before_write", "noinputs", "nooutputs", "input_wrong_reg"}
 \* counters / instructions that disagree (the engine relies on them)
 Inconsistent(c) == c \in {"ands_minus", "ands_plus", "input_after_gate", "surplus_input", "missing_input",
-                          "input_party_oob", "input_idx_oob"}
+                          "input_party_oob", "input_idx_oob",
+                          \* boundary values (first index that is no party / no input bit), one input bit loaded twice
+                          \* while another is never loaded (the counters agree)
+                          "input_party_eq_n", "input_idx_eq_len", "dup_input"}
 
 Rows ==
   { [n |-> n, x |-> x, xeval |-> xe, own |-> o, pe |-> p, po |-> q, inp |-> i, circ |-> c] :
